@@ -341,24 +341,24 @@ theorem hstep_inv (st : HState) (op : HOp) (hi : Inv st) (hs : seqOk st op = tru
         have h2 := ((C03.mem_executable st.m ks p.2).1 hb).2
         simp [h1, canExec] at h2
       · intro k hk; rw [hkeep _ (Or.inr hk)]; exact hk
-  | outcome id ok f =>
+  | outcome id grp ok f =>
     have hfree := hi.free
     simp only [hstep, hfree, Bool.false_eq_true, if_false]
-    have hl := storeStatus_lookup ⟨st.m, f⟩ (keysOf st id) (if ok then .executed else .failed)
-    have hkeys : ∀ j, j ∈ keysOf st id → ∃ p ∈ st.inflight, p.1 = id ∧ p.2 = j := by
+    have hl := storeStatus_lookup ⟨st.m, f⟩ (keysOf st id grp) (if ok then .executed else .failed)
+    have hkeys : ∀ j, j ∈ keysOf st id grp → ∃ p ∈ st.inflight, inGroup id grp p = true ∧ p.2 = j := by
       intro j hj
-      simp only [keysOf, List.mem_map, List.mem_filter, decide_eq_true_eq] at hj
+      simp only [keysOf, List.mem_map, List.mem_filter] at hj
       obtain ⟨p, ⟨hp, hid⟩, rfl⟩ := hj
       exact ⟨p, hp, hid, rfl⟩
     refine ⟨⟨?_, ?_, rfl⟩, ?_⟩
     · intro p hp
-      simp only [List.mem_filter, decide_eq_true_eq] at hp
+      simp only [List.mem_filter, Bool.not_eq_true'] at hp
       rcases hl p.2 with h | ⟨h1, _⟩
       · rw [h]; exact hi.pend p hp.1
       · obtain ⟨q, hq, hqid, hq2⟩ := hkeys _ h1
         have := nodup_map_snd_inj _ hi.nodup q p hq hp.1 hq2
         subst this
-        exact absurd hqid hp.2
+        rw [hqid] at hp; cases hp.2
     · exact hi.nodup.sublist ((List.filter_sublist).map _)
     · intro k hk
       rcases hl k with h | ⟨h1, _⟩
@@ -366,7 +366,7 @@ theorem hstep_inv (st : HState) (op : HOp) (hi : Inv st) (hs : seqOk st op = tru
       · obtain ⟨q, hq, _, hq2⟩ := hkeys _ h1
         have := hi.pend q hq
         rw [hq2, hk] at this; cases this
-  | lost id =>
+  | lost id grp =>
     simp only [hstep]
     refine ⟨⟨?_, ?_, hi.free⟩, fun k hk => hk⟩
     · intro p hp
@@ -397,17 +397,39 @@ end Helpers
 
 section Property
 
+/-- the loop re-emits exactly the deposits named by the positional specification -/
+theorem filterBy_positional (mt : Dep → Bool) (m : List (Nat × Status)) (fs : List Bool) (ds : List Dep) :
+    (filterBy mt ⟨m, fs⟩ ds).1 = pick ds (emitFlags mt m fs ds) := by
+  induction ds generalizing m fs with
+  | nil => simp [filterBy, emitFlags, pick]
+  | cons d r ih =>
+    by_cases hm : mt d = true
+    · rcases fs with _ | ⟨f, _ | ⟨f2, fr⟩⟩ <;> (try cases f) <;> (try cases f2) <;>
+        cases hst : lookup m d.key <;>
+        simp [filterBy, isExecuted, emitFlags, pick, hm, hst, ih]
+    · have hm' : mt d = false := by simpa using hm
+      simp [filterBy, emitFlags, pick, hm', ih]
+
 /-- **C17 (a).** For every deposit set, matcher, status map and fault stream the common retry loop satisfies P17:
-    only matching, not-executed deposits are re-emitted, in block order; all of them when no store call fails;
+    exactly the deposits named by the positional specification `emitFlags` are re-emitted (a deposit is re-emitted iff
+    it matches, is not executed and its own store calls succeeded), in block order;
     an emitted deposit that was stuck pending is released (failed); nothing else is written. -/
 theorem filterBy_P17 (mt : Dep → Bool) (s : Store) (ds : List Dep) :
     P17 s.m s.faults mt ds (filterBy mt s ds).1 (filterBy mt s ds).2.m := by
-  obtain ⟨h1, _, h3, h4⟩ := filterBy_spec mt s ds
-  refine ⟨h1, ?_, h4, ?_⟩
-  · have := filterBy_count mt s ds
-    omega
+  obtain ⟨_, _, h3, h4⟩ := filterBy_spec mt s ds
+  refine ⟨?_, h4, ?_⟩
+  · obtain ⟨m, fs⟩ := s; exact filterBy_positional mt m fs ds
   · intro d _
     exact h3 d.key
+
+/-- consequences of the positional specification kept as theorems: only eligible deposits, in block order, and at
+    most one eligible deposit withheld per failing store call -/
+theorem filterBy_sublist_count (mt : Dep → Bool) (s : Store) (ds : List Dep) :
+    (filterBy mt s ds).1.Sublist (eligible s.m mt ds) ∧
+    (eligible s.m mt ds).length ≤ (filterBy mt s ds).1.length + s.faults.count true := by
+  refine ⟨(filterBy_spec mt s ds).1, ?_⟩
+  have := filterBy_count mt s ds
+  omega
 
 /-- in particular: when no store call fails, exactly the eligible deposits are re-emitted, in block order -/
 theorem filterBy_exact (mt : Dep → Bool) (s : Store) (ds : List Dep) (hf : faultFree s = true) :
@@ -429,7 +451,7 @@ theorem retryV1_P17 (s : Store) (ds : List Dep) :
 theorem retry_never_emits_executed (res dest : Nat) (s : Store) (ds : List Dep) (d : Dep)
     (hd : d ∈ (filterDeposits res dest s ds).1) :
     d ∈ ds ∧ d.dest = dest ∧ d.res = res ∧ lookup s.m d.key ≠ .executed := by
-  have h := (filter_P17 res dest s ds).1.subset hd
+  have h := (filterBy_spec (isMatch res dest) s ds).1.subset hd
   simp only [eligible, List.mem_filter, isMatch, Bool.and_eq_true, decide_eq_true_eq] at h
   exact ⟨h.1, h.2.1.1, h.2.1.2, h.2.2⟩
 
@@ -571,8 +593,8 @@ theorem hstep_stepOk (st : HState) (op : HOp) (n : Nat) : stepOk op st.m (hstep 
         rcases hp with h | ⟨h1, h2⟩
         · simp [h]
         · simp [h1, h2])
-  | outcome id ok f => simp
-  | lost id =>
+  | outcome id grp ok f => simp
+  | lost id grp =>
     simp only [hstep]
     by_cases h : lookup st.m k = Status.executed <;> simp [h]
   | retry ds res dest f =>
@@ -599,11 +621,11 @@ theorem executed_final_unless_own_outcome (st : HState) (ops : List HOp) (k : Na
     simp only [noLaterOutcome, Bool.and_eq_true, Bool.not_eq_true'] at hn
     apply ih _ _ hn.2
     cases op with
-    | outcome id ok f =>
+    | outcome id grp ok f =>
       by_cases hh : st.held = true
       · simpa [hstep, hh] using hk
       · simp only [hstep, hh, Bool.false_eq_true, if_false]
-        rcases storeStatus_lookup ⟨st.m, f⟩ (keysOf st id) (if ok then .executed else .failed) k with h | ⟨h, _⟩
+        rcases storeStatus_lookup ⟨st.m, f⟩ (keysOf st id grp) (if ok then .executed else .failed) k with h | ⟨h, _⟩
         · rw [h]; exact hk
         · have := hn.1
           simp [touches, h] at this
@@ -613,7 +635,7 @@ theorem executed_final_unless_own_outcome (st : HState) (ops : List HOp) (k : Na
       have := h k (by simp)
       simp [hk, canExec] at this
       exact this
-    | lost id => simpa [hstep] using hk
+    | lost id grp => simpa [hstep] using hk
     | retry ds res dest f =>
       have h := hstep_stepOk st (.retry ds res dest f) (k + 1)
       simp only [stepOk, List.all_eq_true] at h
@@ -624,7 +646,7 @@ theorem executed_final_unless_own_outcome (st : HState) (ops : List HOp) (k : Na
 /-- the five-step history of a stale session (C03-c1's scenario) keeps the record executed -/
 example :
     let d : Dep := ⟨2, 97, 0, 0⟩
-    let ops := [HOp.deliver [0] [], .retry [d] 97 2 [], .deliver [0] [], .outcome 1 true [], .lost 0,
+    let ops := [HOp.deliver [0] [], .retry [d] 97 2 [], .deliver [0] [], .outcome 1 [0] true [], .lost 0 [0],
                 .retry [d] 97 2 [], .deliver [0] []]
     ((hrun true init ops).map fun (x : HRes × HState) => lookup x.2.m 0) =
       [Status.pending, .failed, .pending, .executed, .executed, .executed, .executed] ∧
@@ -717,12 +739,48 @@ theorem executed_final_from_start (ops : List HOp) (hs : seqRun true init ops = 
     finalAlong k ([] :: (hrun true init ops).map (·.2.m)) = true :=
   executed_final_along init ops inv_init hs k
 
+/-- the strict machine (the property as stated) keeps an executed record in EVERY history … -/
+theorem strict_keeps_executed (st : HState) (op : HOp) (k : Nat) (hk : lookup st.m k = .executed) :
+    lookup (hstepStrict st op).2.m k = .executed := by
+  cases op with
+  | outcome id grp ok f =>
+    by_cases hh : st.held = true
+    · simpa [hstepStrict, hh] using hk
+    · simp only [hstepStrict, hh, Bool.false_eq_true, if_false]
+      rcases storeStatus_lookup ⟨st.m, f⟩ ((keysOf st id grp).filter fun k => lookup st.m k != .executed)
+          (if ok then .executed else .failed) k with h | ⟨h, _⟩
+      · rw [h]; exact hk
+      · simp [List.mem_filter, hk] at h
+  | deliver ks f =>
+    have h := executed_final_unless_own_outcome st [.deliver ks f] k hk (by simp [noLaterOutcome, touches])
+    simpa [hstepStrict, hfinal] using h
+  | lost id grp => simpa [hstepStrict, hstep] using hk
+  | retry ds res dest f =>
+    have h := executed_final_unless_own_outcome st [.retry ds res dest f] k hk (by simp [noLaterOutcome, touches])
+    simpa [hstepStrict, hfinal] using h
+
+/-- … and it IS the code on every state satisfying the invariant (all in-flight records pending): the two machines
+    differ only on overlapping histories -/
+theorem strict_eq_of_inv (st : HState) (op : HOp) (hi : Inv st) : hstepStrict st op = hstep true st op := by
+  cases op with
+  | outcome id grp ok f =>
+    have hall : (keysOf st id grp).filter (fun k => lookup st.m k != .executed) = keysOf st id grp := by
+      apply List.filter_eq_self.2
+      intro k hk
+      simp only [keysOf, List.mem_map, List.mem_filter] at hk
+      obtain ⟨p, ⟨hp, _⟩, rfl⟩ := hk
+      simp [hi.pend p hp]
+    simp [hstepStrict, hstep, hall]
+  | deliver ks f => rfl
+  | lost id grp => rfl
+  | retry ds res dest f => rfl
+
 /-- the excluded point, stated rather than hidden: retrying a deposit whose execution is still in flight
     (non-sequential) lets a second execution start; when the first succeeds and the second fails late, the
     `executed` record is overwritten with `failed` -/
 theorem overlap_hazard :
     let d : Dep := ⟨2, 97, 1, 0⟩
-    let ops := [HOp.deliver [1] [], .retry [d] 97 2 [], .deliver [1] [], .outcome 0 true [], .outcome 1 false []]
+    let ops := [HOp.deliver [1] [], .retry [d] 97 2 [], .deliver [1] [], .outcome 0 [1] true [], .outcome 1 [1] false []]
     seqRun true init ops = false ∧
     ((hrun true init ops).map fun x => lookup x.2.m 1) = [.pending, .failed, .pending, .executed, .failed] := by
   decide
@@ -740,8 +798,8 @@ theorem mutex_free (st : HState) (ops : List HOp) (hf : st.held = false) :
         simp only [hstep, hf, Bool.false_eq_true, if_false]
         rcases forExec ⟨st.m, f⟩ ks with ⟨o, s'⟩
         cases o <;> simp [hf]
-      | outcome id ok f => simp [hstep, hf]
-      | lost id => simp [hstep, hf]
+      | outcome id grp ok f => simp [hstep, hf]
+      | lost id grp => simp [hstep, hf]
       | retry ds res dest f => simp [hstep, hf]
     obtain ⟨h1, h2⟩ := ih _ hstep'.1
     refine ⟨h1, ?_⟩
@@ -757,6 +815,15 @@ theorem asFound_hangs :
     ((hrun false init [.deliver [0] [true], .deliver [0] []]).map (·.1)) = [.selected none, .hang] := by
   decide
 
+/-- non-vacuity (multi-resource delivery): the groups of one delivery conclude independently -/
+example :
+    let ops := [HOp.deliver [0, 1] [], .outcome 0 [0] true [], .outcome 0 [1] false [],
+                .retry [⟨2, 97, 0, 0⟩, ⟨2, 97, 1, 1⟩] 97 2 [], .deliver [0, 1] []]
+    seqRun true init ops = true ∧
+    ((hrun true init ops).map fun (x : HRes × HState) => (lookup x.2.m 0, lookup x.2.m 1)) =
+      [(Status.pending, Status.pending), (.executed, .pending), (.executed, .failed), (.executed, .failed),
+       (.executed, .pending)] := by decide
+
 /-! #### non-vacuity -/
 
 example :
@@ -767,8 +834,8 @@ example :
     (filterDeposits 1 2 ⟨m, [false, false, true]⟩ ds).1.map (·.idx) = [0] := by decide
 
 example :
-    let ops := [HOp.deliver [0, 1] [], .outcome 0 true [], .retry [⟨2, 97, 0, 0⟩, ⟨2, 97, 1, 1⟩] 97 2 [],
-                .deliver [0, 1, 2] [], .lost 1, .retry [⟨2, 97, 2, 0⟩] 97 2 [], .deliver [2] [false, true], .deliver [2] []]
+    let ops := [HOp.deliver [0, 1] [], .outcome 0 [0, 1] true [], .retry [⟨2, 97, 0, 0⟩, ⟨2, 97, 1, 1⟩] 97 2 [],
+                .deliver [0, 1, 2] [], .lost 1 [2], .retry [⟨2, 97, 2, 0⟩] 97 2 [], .deliver [2] [false, true], .deliver [2] []]
     seqRun true init ops = true ∧
     ((hrun true init ops).map fun (x : HRes × HState) => lookup x.2.m 0) =
       [Status.pending, .executed, .executed, .executed, .executed, .executed, .executed, .executed] ∧
